@@ -121,6 +121,21 @@ def canonicalise(tree):
                         ret.lineno = st.lineno
                         del b[i]
                         continue
+                    # (g) `v = e; f(v, ...)` -> `f(e, ...)` when v is used nowhere else and nothing with an effect is
+                    #     evaluated before the first argument (f is a plain name / attribute chain)
+                    if isinstance(st, ast.Assign) and len(st.targets) == 1 and isinstance(st.targets[0], ast.Name) \
+                            and i + 1 < len(b) and st.targets[0].id not in declared and uses.get(st.targets[0].id, 0) == 2 \
+                            and isinstance(b[i + 1], (ast.Return, ast.Expr, ast.Assign)) \
+                            and isinstance(getattr(b[i + 1], 'value', None), ast.Call):
+                        call = b[i + 1].value
+                        if call.args and isinstance(call.args[0], ast.Name) and call.args[0].id == st.targets[0].id \
+                                and not any(isinstance(x, ast.Call) for x in ast.walk(call.func)) \
+                                and not (isinstance(b[i + 1], ast.Assign) and any(isinstance(x, ast.Call) for t_ in b[i + 1].targets
+                                                                                 for x in ast.walk(t_))):
+                            call.args[0] = st.value
+                            b[i + 1].lineno = st.lineno
+                            del b[i]
+                            continue
                     if isinstance(st, ast.If):
                         # (c)
                         while not st.orelse and len(st.body) == 1 and isinstance(st.body[0], ast.If) and not st.body[0].orelse:
@@ -150,6 +165,100 @@ def canonicalise(tree):
             node.keywords.sort(key=lambda k: k.arg)
     ast.fix_missing_locations(tree)
     return tree
+
+
+def _terminates(body):
+    if not body:
+        return False
+    last = body[-1]
+    if isinstance(last, (ast.Return, ast.Raise, ast.Continue, ast.Break)):
+        return True
+    if isinstance(last, ast.If) and last.orelse:
+        return _terminates(last.body) and _terminates(last.orelse)
+    return False
+
+
+def _is_guard(body):
+    if len(body) != 1:
+        return False
+    st = body[0]
+    if isinstance(st, ast.Raise):
+        return True
+    return isinstance(st, ast.Return) and (st.value is None or isinstance(st.value, (ast.Constant, ast.Name)))
+
+
+def _stmt_blocks(root):
+    out = []
+    for node in ast.walk(root):
+        for field in ('body', 'orelse', 'finalbody'):
+            b = getattr(node, field, None)
+            if isinstance(b, list) and b and isinstance(b[0], ast.stmt):
+                out.append(b)
+    return out
+
+
+def view(fn, kind):
+    """A behaviour-preserving normal form of one function, for rules written against one of the two equivalent
+    spellings of "leave early":
+
+      'flat'    no else after a body that always leaves:   if c: T else: B   ->   if c: T; B
+      'nested'  what follows an always-leaving if is its else:   if c: T; B   ->   if c: T else: B
+
+    Returns a deep copy (parents re-linked, the copy's own parent is the original's); `fn` itself is unchanged."""
+    import copy
+    parent = getattr(fn, '_parent', None)
+    if parent is not None:
+        fn._parent = None          # do not drag the whole module into the copy
+    try:
+        new = copy.deepcopy(fn)
+    finally:
+        if parent is not None:
+            fn._parent = parent
+    changed = True
+    while changed:
+        changed = False
+        for b in _stmt_blocks(new):
+            if kind == 'flat':
+                i = 0
+                while i < len(b):
+                    st = b[i]
+                    if isinstance(st, ast.If) and st.orelse and _terminates(st.body) and _terminates(st.orelse) \
+                            and not (len(st.orelse) == 1 and isinstance(st.orelse[0], ast.If)) and _is_guard(st.orelse) \
+                            and not _is_guard(st.body):
+                        # both branches leave: the guard-like one (a bare `return <name/constant>` / raise) goes first
+                        st.body, st.orelse = st.orelse, st.body
+                        st.test = st.test.operand if isinstance(st.test, ast.UnaryOp) and isinstance(st.test.op, ast.Not) \
+                            else ast.copy_location(ast.UnaryOp(op=ast.Not(), operand=st.test), st.test)
+                    if isinstance(st, ast.If) and st.orelse and _terminates(st.body):
+                        tail = st.orelse
+                        st.orelse = []
+                        b[i + 1:i + 1] = tail
+                        changed = True
+                    elif isinstance(st, ast.If) and st.orelse and _terminates(st.orelse) \
+                            and not (len(st.orelse) == 1 and isinstance(st.orelse[0], ast.If)):
+                        # the leaving branch is the else: `if c: B else: T` -> `if not c: T; B`
+                        tail = st.body
+                        st.body = st.orelse
+                        st.orelse = []
+                        st.test = st.test.operand if isinstance(st.test, ast.UnaryOp) and isinstance(st.test.op, ast.Not) \
+                            else ast.copy_location(ast.UnaryOp(op=ast.Not(), operand=st.test), st.test)
+                        b[i + 1:i + 1] = tail
+                        changed = True
+                    i += 1
+            else:
+                for i, st in enumerate(b):
+                    if isinstance(st, ast.If) and not st.orelse and _terminates(st.body) and i + 1 < len(b):
+                        st.orelse = b[i + 1:]
+                        del b[i + 1:]
+                        changed = True
+                        break
+            if changed:
+                break
+    for p_ in ast.walk(new):
+        for ch in ast.iter_child_nodes(p_):
+            ch._parent = p_
+    new._parent = parent
+    return new
 
 
 class Module(object):
@@ -279,7 +388,13 @@ class Model(object):
             raise AnalysisError('anchor vanished: module hszinc/%s.py' % name)
         return self.modules[name]
 
-    def func(self, modname, qual):
+    def func(self, modname, qual, view_=None):
+        if view_ is not None:
+            key = (modname, qual, view_)
+            cache = self.__dict__.setdefault('_views', {})
+            if key not in cache:
+                cache[key] = view(self.func(modname, qual), view_)
+            return cache[key]
         m = self.mod(modname)
         parts = qual.split('.')
         body = _live_body(m.tree.body)
@@ -308,12 +423,12 @@ class Model(object):
             raise AnalysisError('%s.%s is not a class' % (modname, name))
         return node
 
-    def methods(self, modname, clsname):
+    def methods(self, modname, clsname, view_=None):
         c = self.cls(modname, clsname)
         out = {}
         for st in _live_body(c.body):
             if isinstance(st, ast.FunctionDef):
-                out[st.name] = st
+                out[st.name] = st if view_ is None else self.func(modname, '%s.%s' % (clsname, st.name), view_)
         return out
 
     def resolve_name(self, modname, name, _depth=0):
